@@ -190,6 +190,18 @@ func c07Check(maxFiles int) *HistCheck {
 			if strings.HasPrefix(op, "RET") && o.Err != nil {
 				return &scn.Problem{Kind: "retention-pass-failed", Detail: op + ": " + o.String()}
 			}
+			// "the surviving level-0 files form one contiguous run ending at the newest": whatever the upload
+			// backlog and the cached positions of the live objects, a retention pass leaves the newest REPLICATED
+			// level-0 file in place (judged on the live objects here; the fan-out below uses fresh ones).
+			var newest ltx.TXID
+			if l0 := scn.ListLevel(s.ReplicaDir, 0); len(l0) > 0 {
+				newest = l0[len(l0)-1].Max
+			}
+			prev, _ := s.User.(ltx.TXID)
+			s.User = newest
+			if strings.HasPrefix(op, "RET") && prev > 0 && newest < prev {
+				return &scn.Problem{Kind: "newest-l0-removed", Detail: fmt.Sprintf("%s: newest replicated level-0 TXID was %d, level 0 now ends at %d (%s)", op, prev, newest, scn.Shape(s.ReplicaDir))}
+			}
 			return nil
 		},
 		Final: func(s *scn.Scn) ([]*scn.Problem, string, error) {
